@@ -776,9 +776,42 @@ macro_rules! keyed_by {
     };
 }
 
+/// a container followed by values of other types in the same message (state a specialised path leaves behind —
+/// fast-path flags, cursors, expected / wire types — shows in what is decoded next)
+macro_rules! followed_by {
+    ($v:ident, $c:ty) => {
+        $v.push(entry!(($c, Int)));
+        $v.push(entry!(($c, u8, Nat)));
+        $v.push(entry!(($c, String)));
+        $v.push(entry!(Pair<$c, Int>));
+        $v.push(entry!(Vec<($c, Int)>));
+        $v.push(entry!(($c, Option<Int>, $c)));
+    };
+}
+
 pub fn all() -> Vec<Entry> {
     let mut v: Vec<Entry> = vec![];
     over_elems!(v, containers_of);
+    followed_by!(v, [Nat; 2]);
+    followed_by!(v, [Int; 2]);
+    followed_by!(v, [u128; 2]);
+    followed_by!(v, [u8; 2]);
+    followed_by!(v, [String; 2]);
+    followed_by!(v, Vec<Nat>);
+    followed_by!(v, Vec<u8>);
+    followed_by!(v, Option<Nat>);
+    followed_by!(v, BTreeMap<String, Nat>);
+    followed_by!(v, BTreeMap<u8, Int>);
+    followed_by!(v, BTreeSet<Nat>);
+    followed_by!(v, ByteBuf);
+    // maps whose key or value may be missing on the wire (a subtype may drop an optional component)
+    v.push(entry!(BTreeMap<String, Option<u8>>));
+    v.push(entry!(BTreeMap<Option<String>, u8>));
+    v.push(entry!(BTreeMap<u8, Option<Nat>>));
+    v.push(entry!(BTreeMap<Option<u8>, Option<Int>>));
+    v.push(entry!(HashMap<String, Option<Int>>));
+    v.push(entry!(BTreeMap<String, Reserved>));
+    v.push(entry!(Vec<(String, Option<u8>)>));
     keyed_by!(v, String);
     keyed_by!(v, u8);
     keyed_by!(v, Nat);
